@@ -190,24 +190,30 @@ func listOf(elems ...leaf) leaf {
 // the other kind of spelling; a tree with several leaves of one type mixes both kinds when its
 // ordinals straddle slot 5/6 or 11/0. The list pool repeats its four values three times, the middle
 // third with commas inside parentheses.
-var pools = buildPools()
+var pools = poolsW[0][0]
 
-func buildPools() map[byte][]leaf {
-	i2, ia, i12, ib := lf("lit", iv(2), "2"), lf("var", iv(3), "a"), lf("lit", iv(12), "12"), lf("var", iv(7), "b")
-	ion, ixs1 := lf("attr", iv(5), "o.n"), lf("index", iv(30), "xs[1]", "xs[1]", "xs[  1  ]")
-	bt, bf, btrue, bof := lf("var", bv(true), "t"), lf("var", bv(false), "f"), lf("lit", bv(true), "true"), lf("attr", bv(false), "o.f")
-	bbs0, bfalse := lf("index", bv(true), "bs[0]", "bs[0]", "bs[  0  ]"), lf("lit", bv(false), "false")
-	sa, ss, sb, sos := lf("lit", sv("a"), "'a'"), lf("var", sv("ab"), "s"), lf("lit", sv("b"), "'b'"), lf("attr", sv("ba"), "o.s")
-	sab, sss1 := lf("lit", sv("ab"), "\"ab\""), lf("index", sv("abab"), "ss[1]", "ss[1]", "ss[  1  ]")
-	lxs := lf("var", val{t: 'l', l: []int64{2, 30, 5}}, "xs")
-	l37 := lf("list", val{t: 'l', l: []int64{3, 7}}, "[3, 7]", "[3,7]", "[  3  ,  7  ]")
-	loxs := lf("attr", val{t: 'l', l: []int64{12, 7}}, "o.xs")
-	la12 := lf("list", val{t: 'l', l: []int64{3, 12}}, "[a, 12]", "[a,12]", "[  a  ,  12  ]")
+// buildPools: the pools with the values the variables have in world w (worlds.go); world 0 is the
+// original assignment. With pre = "w." every variable is spelled as an attribute of the loop variable
+// of `{% for w in ws %}` (a -> w.a, o.n -> w.o.n, xs[1] -> w.xs[1]); literals are the same everywhere.
+func buildPools(w world, pre string) map[byte][]leaf {
+	idx := func(name, i string) []string {
+		return []string{pre + name + "[" + i + "]", pre + name + "[" + i + "]", pre + name + "[  " + i + "  ]"}
+	}
+	i2, ia, i12, ib := lf("lit", iv(2), "2"), lf("var", iv(w.a), pre+"a"), lf("lit", iv(12), "12"), lf("var", iv(w.b), pre+"b")
+	ion, ixs1 := lf("attr", iv(w.on), pre+"o.n"), lf("index", iv(w.xs[1]), idx("xs", "1")...)
+	bt, bf, btrue, bof := lf("var", bv(w.t), pre+"t"), lf("var", bv(w.f), pre+"f"), lf("lit", bv(true), "true"), lf("attr", bv(w.of), pre+"o.f")
+	bbs0, bfalse := lf("index", bv(w.bs[0]), idx("bs", "0")...), lf("lit", bv(false), "false")
+	sa, ss, sb, sos := lf("lit", sv("a"), "'a'"), lf("var", sv(w.s), pre+"s"), lf("lit", sv("b"), "'b'"), lf("attr", sv(w.os), pre+"o.s")
+	sab, sss1 := lf("lit", sv("ab"), "\"ab\""), lf("index", sv(w.ss[1]), idx("ss", "1")...)
+	lxs := lf("var", val{t: 'l', l: w.xs}, pre+"xs")
+	l37 := listOf(ilit(3), ilit(7))
+	loxs := lf("attr", val{t: 'l', l: w.oxs}, pre+"o.xs")
+	la12 := listOf(ia, i12)
 	comma := lf("lit", sv(","), "','")
-	g999, gbig := lf("lit", iv(999999999999999), "999999999999999"), lf("var", iv(9007199254740991), "big")
-	g1e15, gog := lf("lit", iv(1000000000000000), "1000000000000000"), lf("attr", iv(100000000000000), "o.g")
+	g999, gbig := lf("lit", iv(999999999999999), "999999999999999"), lf("var", iv(w.big), pre+"big")
+	g1e15, gog := lf("lit", iv(1000000000000000), "1000000000000000"), lf("attr", iv(w.og), pre+"o.g")
 	g252 := lf("lit", iv(4503599627370497), "4503599627370497")
-	ggs1 := lf("index", iv(-9007199254740991), "gs[1]", "gs[1]", "gs[  1  ]")
+	ggs1 := lf("index", iv(w.gs[1]), idx("gs", "1")...)
 
 	p := map[byte][]leaf{
 		'i': {i2, ia, i12, ib, ion, ixs1,
@@ -240,11 +246,11 @@ func buildPools() map[byte][]leaf {
 		// n[4] = "30" meets xs[1] = 30, n[5] = "5" meets o.n = 5 in `N0 == I1` / `I0 == N1`.
 		'n': {
 			lf("lit", sv("10"), "'10'"),
-			lf("var", sv("9"), "n"),
+			lf("var", sv(w.n), pre+"n"),
 			lf("lit", sv("-2"), "'-2'"),
-			lf("attr", sv("-1"), "o.m"),
+			lf("attr", sv(w.om), pre+"o.m"),
 			lf("lit", sv("30"), "\"30\""),
-			lf("index", sv("5"), "ns[1]", "ns[1]", "ns[  1  ]"),
+			lf("index", sv(w.ns[1]), idx("ns", "1")...),
 		},
 		'l': {lxs, l37, loxs, la12,
 			call("pick", ilit(1), ia, lxs),   // xs
@@ -270,16 +276,20 @@ func buildPools() map[byte][]leaf {
 		// the pool straddles 10^15: 31622776 * 31622777 = 999999993568952 < 10^15 < 31622777^2
 		'm': {
 			lf("lit", iv(67108865), "67108865"), // 2^26 + 1
-			lf("var", iv(94906265), "c"),
+			lf("var", iv(w.c), pre+"c"),
 			lf("lit", iv(31622777), "31622777"),
-			lf("attr", iv(31622776), "o.c"),
+			lf("attr", iv(w.oc), pre+"o.c"),
 			lf("lit", iv(10000000), "10000000"),
-			lf("index", iv(33554432), "ms[1]", "ms[1]", "ms[  1  ]"),
+			lf("index", iv(w.ms[1]), idx("ms", "1")...),
 		},
 		'r': { // regular expressions, only ever the right operand of `matches`
 			lf("lit", sv("/^a/"), "'/^a/'"),
 			lf("lit", sv("/b$/"), "'/b$/'"),
 		},
+	}
+	p['x'] = extraLeaves()
+	if !w.base {
+		return p // in the other worlds the values follow from the structure of the leaves
 	}
 	// the comma leaves are twins: same value as the plain leaf half (a third) of the pool away
 	for _, t := range []byte{'i', 'b', 's', 'g'} {
@@ -299,24 +309,8 @@ func buildPools() map[byte][]leaf {
 
 const nRot = 12 // lcm of the pool sizes
 
-// the context every template is rendered with (must agree with the pools above)
-func context() map[string]interface{} {
-	return map[string]interface{}{
-		"a": 3, "b": 7, "t": true, "f": false, "s": "ab", "n": "9",
-		"big": 9007199254740991, "c": 94906265,
-		"gs": []interface{}{1, -9007199254740991},
-		"ms": []interface{}{1, 33554432},
-		"ns": []interface{}{"7", "5"},
-		"xs": []interface{}{2, 30, 5},
-		"bs": []interface{}{true, false},
-		"ss": []interface{}{"ba", "abab"},
-		"o": map[string]interface{}{"n": 5, "s": "ba", "f": false, "t": true, "m": "-1",
-			"g": 100000000000000, "c": 31622776,
-			"xs": []interface{}{12, 7}},
-		"seq": []interface{}{100, 101, 102, 103, 104, 105, 106, 107, 108, 109},
-	}
-}
-
+// the context every template is rendered with in world 0 (contextOf in worlds.go; must agree with the pools above)
+func context() map[string]interface{} { return contextOf(worlds[0]) }
 // ---- trees
 
 type node struct {
@@ -510,7 +504,14 @@ func genInto(k, u int, typ byte, core genMode, emit func(*node)) {
 
 type inst struct {
 	root   *node
-	leaves []leaf // by leaf ordinal
+	leaves []leaf    // by leaf ordinal
+	refs   []leafRef // where each leaf stands in the pools (the same slot in every world and spelling)
+}
+
+// leafRef: slot `slot` of the pool of type `typ`
+type leafRef struct {
+	typ  byte
+	slot int
 }
 
 func instantiate(root *node, rot int) *inst {
@@ -519,6 +520,7 @@ func instantiate(root *node, rot int) *inst {
 	walk = func(n *node) {
 		if n.kind == 'a' {
 			p := pools[n.typ]
+			in.refs = append(in.refs, leafRef{n.typ, (len(in.leaves) + rot) % len(p)})
 			in.leaves = append(in.leaves, p[(len(in.leaves)+rot)%len(p)])
 			return
 		}
@@ -577,9 +579,13 @@ func (e *evaluator) eval1(n *node, base int) (val, error) {
 		if err != nil {
 			return val{}, err
 		}
-		if n.op == "-" {
+		if n.op == "-" || n.op == "+" {
+			// unary plus (only in the signed-operand family): the operand itself
 			if x.t != 'i' {
-				return val{}, evalErr("type: -" + string(x.t))
+				return val{}, evalErr("type: " + n.op + string(x.t))
+			}
+			if n.op == "+" {
+				return x, nil
 			}
 			return iv(-x.i), nil
 		}
@@ -860,6 +866,7 @@ type style struct {
 	mask   uint
 	sp     int
 	traced bool // leaves are printed as calls k(ordinal)
+	loop   bool // the position stands inside `{% for w in ws %}` (the tree is spelled with w.a, w.o.n, …)
 	quirk  bool // KF-C08-1 twin: a unary operator on an index-access leaf is printed as (-xs)[1]
 }
 
@@ -871,6 +878,9 @@ func (s style) String() string {
 	r := p + "/" + []string{"normal", "tight", "wide"}[s.sp]
 	if s.traced {
 		r += "/traced"
+	}
+	if s.loop {
+		r += "/loop"
 	}
 	return r
 }
@@ -919,8 +929,8 @@ func required(n, c *node, slot int) bool {
 		case 'c':
 			return true
 		case 'u':
-			if c.op == "-" {
-				return n.op == "^" && slot == 0 // -a ^ b is excluded
+			if c.op != "not" {
+				return n.op == "^" && slot == 0 // -a ^ b (and +a ^ b) is excluded
 			}
 			return trueLevel[n.op] == 3 // not a == b is excluded
 		}
@@ -976,7 +986,7 @@ func (p *printer) expr(n *node) string {
 		return p.leaves[o].src[p.st.sp]
 	case 'u':
 		c := n.k[0]
-		opS := "-"
+		opS := n.op // - or +
 		if n.op == "not" {
 			opS = "not "
 		}
@@ -1059,7 +1069,7 @@ func canon(n *node, leafSrc func(ord int, n *node) string) string {
 			if n.op == "not" {
 				return "(not " + f(n.k[0]) + ")"
 			}
-			return "(-" + f(n.k[0]) + ")"
+			return "(" + n.op + f(n.k[0]) + ")"
 		case 'f':
 			return "(" + f(n.k[0]) + "|" + n.op + ")"
 		case 'b':
@@ -1156,6 +1166,9 @@ func (e *shadow) eval(n *node, base int) sval {
 		x := e.eval(n.k[0], base)
 		if n.op == "-" {
 			return sval{t: 'i', f: -x.f + 0}
+		}
+		if n.op == "+" {
+			return x
 		}
 		return sval{t: 'b', b: !x.b}
 	case 'f':
